@@ -447,6 +447,21 @@ func RunCheck(o CheckOpts) int {
 	for _, l := range lines {
 		fmt.Println(l)
 	}
+	var selfRows []selfRow
+	if thorough && o.Repo == repoDir && os.Getenv("GTV_NO_SELFTEST") == "" {
+		// the machinery must still catch what it is meant to catch, and stay quiet on neutral edits
+		rows, ok := runSelftest(o.Property, nil, 3)
+		selfRows = rows
+		for _, r := range rows {
+			if !r.OK {
+				fmt.Printf("SELFTEST-FAIL property=%s entry=%s exit=%d violations=%v %s\n", o.Property, r.Entry, r.Exit, r.Violations, r.Note)
+			}
+		}
+		if !ok && exit == 0 {
+			exit = 2
+		}
+	}
+	selftestRows = selfRows
 	wall := time.Since(t0).Seconds()
 	fmt.Printf("SUMMARY property=%s tier=%s obligations=%d discharged=%d known=%d undecided=%d violations=%d functions=%d solver_s=%.1f wall_s=%.1f\n",
 		o.Property, o.Tier, len(obs), discharged, known, undecided, violations, len(results), float64(solverMs)/1000, wall)
@@ -458,6 +473,8 @@ func RunCheck(o CheckOpts) int {
 	}
 	return exit
 }
+
+var selftestRows []selfRow
 
 func maxInt(a, b int) int {
 	if a > b {
@@ -682,6 +699,7 @@ func writeEvidence(o CheckOpts, prog *Program, cs *Contracts, results []*FuncRes
 			"not_decided":              notDecided[o.Property],
 			"integers":                 "machine integers (SMT bit-vectors of the Go type's width); ghost indices are mathematical Int",
 			"contract_file":            cs.File,
+			"selftest":                 selftestRows,
 		},
 		"assumptions": assumptionsFor(o.Property),
 		"wall_s":      wall,
